@@ -974,7 +974,20 @@ func (w *world) run(obs *Obs) {
 			}
 			out.Res = "ok"
 			if !c.NoPrefetch {
-				// join the prefetch Mount spawned: a second call returns when the first one is over (sync.Once)
+				// Mount must have spawned the prefetch itself: wait for a sign of it (the waiter released, a request in the
+				// log or parked at the gate) before joining, because the join below is a Prefetch call and would run the
+				// body if nobody had
+				started := false
+				for t0 := time.Now(); time.Since(t0) < 3*time.Second; time.Sleep(200 * time.Microsecond) {
+					if layer.VerifWaiterClosedC15(w.l) || atomic.LoadInt32(&w.reg.hits) > 0 || w.reg.logLen() > w.pfMark {
+						started = true
+						break
+					}
+				}
+				if !started {
+					w.bad("Mount did not start the prefetch of the layer (prefetch enabled, nothing happened for 3s)")
+				}
+				// join: a second call returns when the first one is over (sync.Once)
 				ch := make(chan error, 1)
 				w.pfRunning = append(w.pfRunning, ch)
 				go func() { ch <- w.l.Prefetch(c.PrefetchSize) }()
@@ -991,16 +1004,34 @@ func (w *world) run(obs *Obs) {
 				w.afterPrefetchBody(res, &out)
 			}
 			if !c.NoBG {
-				// ... and the background fetch it spawned
-				done := make(chan error, 1)
-				go func() { done <- w.l.BackgroundFetch() }()
-				select {
-				case <-done:
-				case <-time.After(60 * time.Second):
-					w.bad("the BackgroundFetch spawned by Mount did not finish")
+				// ... and the background fetch: it is over when every chunk of every file is in the chunk cache
+				// (BackgroundFetch is not called here: that call would do the work if Mount had not started it)
+				total := 0
+				for _, fi := range w.files {
+					total += len(fi.Chunks)
+				}
+				finished := false
+				for t0 := time.Now(); time.Since(t0) < 15*time.Second; time.Sleep(2 * time.Millisecond) {
+					if len(w.fsKeys()) == total {
+						finished = true
+						break
+					}
 				}
 				w.bgRan = true
-				w.bgOK = o.Fault == ""
+				w.bgOK = o.Fault == "" && finished
+				if !finished && o.Fault == "" {
+					w.bad("the background fetch Mount has to start did not bring every chunk into the chunk cache within 15s (%d of %d)", len(w.fsKeys()), total)
+				}
+				if finished {
+					// let the goroutine return: a repeated call comes back when the running one is over
+					done := make(chan error, 1)
+					go func() { done <- w.l.BackgroundFetch() }()
+					select {
+					case <-done:
+					case <-time.After(60 * time.Second):
+						w.bad("the BackgroundFetch spawned by Mount did not return")
+					}
+				}
 				if !w.held {
 					pctl.settle()
 					out.Keys, out.HasKeys = w.fsKeys(), true
